@@ -106,3 +106,54 @@ Fixpoint client_connections (reset_at_connect : bool) (r : reader) (conns : list
       let '(r', res) := run_reader_st (run_fuel r0 n) r0 n fi in
       res :: client_connections reset_at_connect r' rest
   end.
+
+(* ---- instrumented copy of the loop: additionally records the space offered to the byte source
+   at every read call (capacity - end after reset / compaction). Proofs/ReaderTrace.v shows its
+   first component IS run_reader; the correspondence check compares the trace with the sizes the
+   scripted transport saw, which ties begin / end of the ReadBuffer to the model read by read. *)
+Definition offered (b : buf) : nat :=
+  let b1 := if buf_is_empty b then {| b_begin := 0; b_pend := b_pend b |} else b in
+  let b2 := if Nat.eqb (b_end b1) cap then {| b_begin := 0; b_pend := b_pend b1 |} else b1 in
+  cap - b_end b2.
+
+Fixpoint next_frame_tr (fuel : nat) (r : reader) (n : net) (fi : fin) : (reader * net * nf_result) * list nat :=
+  match fuel with
+  | O => ((r, n, NfEnd EndOutOfFuel), [])
+  | S fuel =>
+      let '(p', b', res) := parser_parse (r_parser r) (r_buf r) in
+      match res with
+      | Ok (Some f) => (({| r_parser := p'; r_buf := b' |}, n, NfFrame f), [])
+      | Err e => (({| r_parser := parser_reset p'; r_buf := b' |}, n, NfEnd (EndBad e)), [])
+      | Panic => (({| r_parser := p'; r_buf := b' |}, n, NfEnd EndPanic), [])
+      | Ok None =>
+          match n with
+          | [] =>
+              let '(b2, _) := read_some b' [] in
+              (({| r_parser := p'; r_buf := b2 |}, [],
+                NfEnd match fi with FinEof => EndIo UnexpectedEof | FinErr => EndIo IoOther | FinPending => EndPending end),
+               [])                  (* the scripted transport does not log the read that meets the end of the script *)
+          | c :: n' =>
+              match read_some b' c with
+              | (b2, RsOk _ []) => let '(x, t) := next_frame_tr fuel {| r_parser := p'; r_buf := b2 |} n' fi in (x, offered b' :: t)
+              | (b2, RsOk _ rest) => let '(x, t) := next_frame_tr fuel {| r_parser := p'; r_buf := b2 |} (rest :: n') fi in (x, offered b' :: t)
+              | (b2, RsEof) => (({| r_parser := p'; r_buf := b2 |}, match c with [] => n' | _ => n end, NfEnd (EndIo UnexpectedEof)), [offered b'])
+              | (b2, RsPanic) => (({| r_parser := p'; r_buf := b2 |}, n, NfEnd EndPanic), [])
+              end
+          end
+      end
+  end.
+
+Fixpoint run_reader_tr (fuel : nat) (resume : bool) (r : reader) (n : net) (fi : fin) : (list item * ending) * list nat :=
+  match fuel with
+  | O => (([], EndOutOfFuel), [])
+  | S fuel =>
+      match next_frame_tr (nf_fuel n) r n fi with
+      | ((r', n', NfFrame f), t) => let '((l, e), t') := run_reader_tr fuel resume r' n' fi in ((IFrame f :: l, e), t ++ t')
+      | ((r', n', NfEnd (EndBad e)), t) =>
+          if resume then let '((l, e'), t') := run_reader_tr fuel resume r' n' fi in ((IErr e :: l, e'), t ++ t')
+          else (([], EndBad e), t)
+      | ((_, _, NfEnd e), t) => (([], e), t)
+      end
+  end.
+Definition run_session_tr (k : framing_kind) (resume : bool) (n : net) (fi : fin) : (list item * ending) * list nat :=
+  let r := reader_new k in run_reader_tr (run_fuel r n) resume r n fi.
